@@ -11,6 +11,7 @@ import (
 	"net/http"
 	"net/http/httputil"
 	"net/url"
+	"time"
 
 	"golang.org/x/net/http2"
 
@@ -183,4 +184,28 @@ func VerifC02Response() {
 		zzverif.Assert(rw.status == 404 && rw.body > 0, "C02.err.unreachable-is-not-found-page")
 		zzverif.Reach("C02.err.notfound")
 	}
+}
+
+// VerifC02Transport: the transport frp gives the reverse proxy bounds only the wait for response
+// headers (by the configured timeout) and puts no cap on concurrent backend connections, so a
+// slow or hung backend request cannot delay other requests.
+func VerifC02Transport() {
+	secs := []int64{0, 1, 30, 60, 3600}[zzverif.Choice("timeoutSeconds", 5)]
+	c02RP = nil
+	NewHTTPReverseProxy(HTTPReverseProxyOptions{ResponseHeaderTimeoutS: secs}, NewRouters())
+	zzverif.Assume(c02RP != nil)
+	tr, ok := c02RP.Transport.(*http.Transport)
+	zzverif.Assert(ok && tr != nil, "C02.transport.http-transport")
+	if !ok {
+		return
+	}
+	want := time.Duration(secs) * time.Second
+	if secs <= 0 {
+		want = 60 * time.Second
+	}
+	zzverif.Assert(tr.ResponseHeaderTimeout == want, "C02.transport.response-header-timeout-as-configured")
+	zzverif.Assert(tr.MaxConnsPerHost == 0, "C02.transport.no-cap-on-concurrent-backend-connections")
+	zzverif.Assert(!tr.DisableKeepAlives && tr.DialContext != nil, "C02.transport.dials-through-the-tunnel")
+	zzverif.Assert(tr.ExpectContinueTimeout == 0 && tr.TLSHandshakeTimeout == 0, "C02.transport.no-other-time-limits")
+	zzverif.Reach("C02.transport.done")
 }
